@@ -87,6 +87,18 @@ def do_wrap(ck, exe, nshards, per, stats):
             continue
         lines = out.splitlines()
         cases, cur = [], None
+        vends = [l for l in lines if l.startswith("vend ")]
+        if vends and ck.lean_ok:
+            got = vlib.run_driver("drv_c15", "\n".join(vends) + "\n")
+            for l, g in zip(vends, got):
+                stats["vend_cases"] += 1
+                f = l.split(" ")
+                ck.count(vlib.hash_str(l), nontrivial=f[2] == "1" or f[3] == "1")
+                if g != "m_vend " + l.split(" | ")[1]:
+                    ck.unproved("correspondence Wrap.adjustVoiceEnd vs adjust_voice_end", "%s\nmodel: %s" % (l, g))
+                    break
+            else:
+                ck.cov["traces_validated_against_impl"] += len(vends)
         for l in lines:
             if l.startswith("wrap "):
                 cur = {"in": l, "exp": [], "fail": []}
